@@ -1,0 +1,100 @@
+//go:build verif
+
+// Contracts for the body element list (property C08), read by /verif/engine (govc).
+// Comments only: with or without the build tag this file adds no code to the package.
+package document
+
+// isPara: the dynamic type of a body element is *Paragraph.
+//@ spec isPara(x any) bool = typeIs(x, "*Paragraph")
+
+// paraCount(es, j): number of paragraphs among es[0:j].
+//@ spec paraCount(es []any, j int) int = ite(j <= 0, 0, paraCount(es, j - 1) + ite(isPara(es[j-1]), 1, 0))
+
+//@ func (*Body).AddElement
+//@ props C08
+//@ requires b != nil
+//@ ensures len(b.Elements) == old(len(b.Elements)) + 1
+//@ ensures b.Elements[old(len(b.Elements))] == element
+//@ ensures forall j int :: 0 <= j && j < old(len(b.Elements)) ==> b.Elements[j] == old(b.Elements[j])
+//@ ensures unchangedExcept("Body.Elements", "cell:any")
+
+//@ func (*Document).AddParagraph
+//@ props C08
+//@ requires d != nil && d.Body != nil
+//@ ensures fresh(result)
+//@ ensures len(d.Body.Elements) == old(len(d.Body.Elements)) + 1
+//@ ensures typeIs(d.Body.Elements[old(len(d.Body.Elements))], "*Paragraph") && d.Body.Elements[old(len(d.Body.Elements))].(*Paragraph) == result
+//@ ensures forall j int :: 0 <= j && j < old(len(d.Body.Elements)) ==> d.Body.Elements[j] == old(d.Body.Elements[j])
+//@ ensures len(result.Runs) == 1 && result.Runs[0].Text.Content == text && result.Properties == nil
+//@ ensures unchangedExcept("Body.Elements", "cell:any")
+
+//@ func (*Document).AddPageBreak
+//@ props C08
+//@ requires d != nil && d.Body != nil
+//@ ensures len(d.Body.Elements) == old(len(d.Body.Elements)) + 1
+//@ ensures typeIs(d.Body.Elements[old(len(d.Body.Elements))], "*Paragraph") && fresh(d.Body.Elements[old(len(d.Body.Elements))].(*Paragraph))
+//@ ensures forall j int :: 0 <= j && j < old(len(d.Body.Elements)) ==> d.Body.Elements[j] == old(d.Body.Elements[j])
+//@ ensures unchangedExcept("Body.Elements", "cell:any")
+
+//@ func (*Document).RemoveElementAt
+//@ props C08
+//@ requires d != nil && d.Body != nil
+//@ ensures result == (0 <= index && index < old(len(d.Body.Elements)))
+//@ ensures !result ==> unchangedHeap()
+//@ ensures result ==> len(d.Body.Elements) == old(len(d.Body.Elements)) - 1
+//@ ensures result ==> forall j int :: 0 <= j && j < len(d.Body.Elements) ==> d.Body.Elements[j] == old(d.Body.Elements[ite(j < index, j, j+1)])
+//@ ensures unchangedExcept("Body.Elements", "cell:any")
+
+//@ func (*Document).RemoveParagraphAt
+//@ props C08
+//@ requires d != nil && d.Body != nil
+//@ ensures result == old(exists p int :: 0 <= index && 0 <= p && p < len(d.Body.Elements) && isPara(d.Body.Elements[p]) && paraCount(d.Body.Elements, p) == index)
+//@ ensures !result ==> unchangedHeap()
+//@ ensures result ==> len(d.Body.Elements) == old(len(d.Body.Elements)) - 1
+//@ ensures result ==> exists p int :: 0 <= p && p < old(len(d.Body.Elements)) && old(isPara(d.Body.Elements[p])) && old(paraCount(d.Body.Elements, p)) == index && (forall j int :: 0 <= j && j < len(d.Body.Elements) ==> d.Body.Elements[j] == old(d.Body.Elements[ite(j < p, j, j+1)]))
+//@ ensures unchangedExcept("Body.Elements", "cell:any")
+//@ loop 1
+//@   invariant 0 <= #i && #i <= old(len(d.Body.Elements)) && unchangedHeap()
+//@   invariant paragraphCount == old(paraCount(d.Body.Elements, #i)) && 0 <= index
+//@   invariant forall p int :: 0 <= p && p < #i && old(isPara(d.Body.Elements[p])) ==> old(paraCount(d.Body.Elements, p)) != index
+//@   decreases old(len(d.Body.Elements)) - #i
+
+//@ func (*Document).RemoveParagraph
+//@ props C08
+//@ requires d != nil && d.Body != nil
+//@ ensures result == old(exists q int :: 0 <= q && q < len(d.Body.Elements) && isPara(d.Body.Elements[q]) && d.Body.Elements[q].(*Paragraph) == paragraph)
+//@ ensures !result ==> unchangedHeap()
+//@ ensures result ==> len(d.Body.Elements) == old(len(d.Body.Elements)) - 1
+//@ ensures result ==> exists p int :: 0 <= p && p < old(len(d.Body.Elements)) && old(isPara(d.Body.Elements[p]) && d.Body.Elements[p].(*Paragraph) == paragraph) && (forall q int :: 0 <= q && q < p ==> !old(isPara(d.Body.Elements[q]) && d.Body.Elements[q].(*Paragraph) == paragraph)) && (forall j int :: 0 <= j && j < len(d.Body.Elements) ==> d.Body.Elements[j] == old(d.Body.Elements[ite(j < p, j, j+1)]))
+//@ ensures unchangedExcept("Body.Elements", "cell:any")
+//@ loop 1
+//@   invariant 0 <= #i && #i <= old(len(d.Body.Elements)) && unchangedHeap()
+//@   invariant forall q int :: 0 <= q && q < #i ==> !old(isPara(d.Body.Elements[q]) && d.Body.Elements[q].(*Paragraph) == paragraph)
+//@   decreases old(len(d.Body.Elements)) - #i
+
+// Serialisation order (last sentence of C08): Body.MarshalXML hands the encoder every element that is not a
+// section-properties object, in body order, and then the LAST section-properties object (if any) exactly once.
+//@ spec isSect(x any) bool = typeIs(x, "*SectionProperties")
+//@ spec nonSect(es []any, j int) int = ite(j <= 0, 0, nonSect(es, j - 1) + ite(isSect(es[j-1]), 0, 1))
+//@ spec lastSect(es []any, j int) *SectionProperties = ite(j <= 0, nil, ite(isSect(es[j-1]), es[j-1].(*SectionProperties), lastSect(es, j - 1)))
+
+//@ func (*Body).MarshalXML
+//@ props C08
+//@ requires b != nil && e != nil
+//@ modifies nothing
+//@ ensures err == nil ==> encCount() == old(encCount() + nonSect(b.Elements, len(b.Elements)) + ite(lastSect(b.Elements, len(b.Elements)) != nil, 1, 0))
+//@ ensures err == nil ==> forall j int :: 0 <= j && j < old(len(b.Elements)) && !old(isSect(b.Elements[j])) ==> encAt(old(encCount() + nonSect(b.Elements, j))) == old(b.Elements[j])
+//@ ensures err == nil && old(lastSect(b.Elements, len(b.Elements))) != nil ==> typeIs(encAt(encCount() - 1), "*SectionProperties") && encAt(encCount() - 1).(*SectionProperties) == old(lastSect(b.Elements, len(b.Elements)))
+//@ loop 1
+//@   invariant 0 <= #i && #i <= len(b.Elements) && unchangedHeap() && encCount() == old(encCount())
+//@   invariant len(otherElements) == old(nonSect(b.Elements, #i)) && sectPr == old(lastSect(b.Elements, #i))
+//@   invariant cap(otherElements) == 0 || arr(otherElements) >= old(allocBound())
+//@   invariant forall j int :: 0 <= j && j <= #i ==> 0 <= old(nonSect(b.Elements, j))
+//@   invariant forall j int :: 0 <= j && j < #i && !old(isSect(b.Elements[j])) ==> old(nonSect(b.Elements, j)) < len(otherElements)
+//@   invariant forall j int :: 0 <= j && j < #i && !old(isSect(b.Elements[j])) ==> otherElements[old(nonSect(b.Elements, j))] == old(b.Elements[j])
+//@   decreases len(b.Elements) - #i
+//@ loop 2
+//@   invariant 0 <= #i && #i <= len(otherElements) && unchangedHeap()
+//@   invariant encCount() == old(encCount()) + #i
+//@   invariant forall k int :: old(encCount()) <= k && k < encCount() ==> encAt(k) == otherElements[k - old(encCount())]
+//@   decreases len(otherElements) - #i
